@@ -9,6 +9,8 @@
 //!   (e) `time_point_to_signed_entity` is a pure function of (time point, config): independently constructed equal
 //!       configs, JSON round-tripped configs (the signer receives its config from the aggregator as JSON) and
 //!       repeated calls agree; `Err` only for the documented epoch-0 Cardano stake distribution.
+//!   (f) the beacon of one entity type does not depend on what the OTHER transactions-like type is configured with
+//!       (other security parameter / step, or not configured): the margin applied is the configured one.
 //! No panic / overflow on the whole domain (harness is built with overflow checks).
 
 use std::collections::BTreeSet;
@@ -38,6 +40,11 @@ struct RandCase {
     step: u64,
     epoch: u64,
     immutable: u64,
+    /// parameters of the OTHER transactions-like entity type in the mixed configurations of clause (f)
+    #[serde(default)]
+    k_other: u64,
+    #[serde(default)]
+    step_other: u64,
 }
 
 fn adj(step: u64) -> u128 {
@@ -60,13 +67,18 @@ fn class(v: u64) -> &'static str {
 }
 
 fn config(k: u64, step: u64) -> SignedEntityConfig {
+    config2(Some((k, step)), Some((k, step)))
+}
+
+/// each of the two transactions-like entity types with its own (security parameter, step), or not configured
+fn config2(tx: Option<(u64, u64)>, blocks: Option<(u64, u64)>) -> SignedEntityConfig {
     SignedEntityConfig {
         allowed_discriminants: SignedEntityTypeDiscriminants::all(),
-        cardano_transactions_signing_config: Some(CardanoTransactionsSigningConfig {
+        cardano_transactions_signing_config: tx.map(|(k, step)| CardanoTransactionsSigningConfig {
             security_parameter: BlockNumberOffset(k),
             step: BlockNumber(step),
         }),
-        cardano_blocks_transactions_signing_config: Some(CardanoBlocksTransactionsSigningConfig {
+        cardano_blocks_transactions_signing_config: blocks.map(|(k, step)| CardanoBlocksTransactionsSigningConfig {
             security_parameter: BlockNumberOffset(k),
             step: BlockNumber(step),
         }),
@@ -206,11 +218,46 @@ fn rand_case(c: &RandCase) -> Report {
         rep.violation("monotone-blocks", format!("{c:?}: {c1} → {c2}"));
     }
     // whole-step moves between two successive time points
-    if b1 != 0 && (b2 as u128 - b1 as u128) % adj(c.step) != 0 {
+    if b1 != 0 && (b2 as u128).abs_diff(b1 as u128) % adj(c.step) != 0 {
         rep.violation("step-tx", format!("{c:?}: move {b1}→{b2} is not a whole number of steps"));
     }
-    if (c2 as u128 - c1 as u128) % std::cmp::max(c.step as u128, 1) != 0 {
+    if (c2 as u128).abs_diff(c1 as u128) % std::cmp::max(c.step as u128, 1) != 0 {
         rep.violation("step-blocks", format!("{c:?}: move {c1}→{c2} is not a whole number of steps"));
+    }
+
+    // (f) the beacon of an entity type is a function of the time point and of THAT type's own parameters: it is the
+    // same whatever the other type is configured with (other values, or not configured at all) — otherwise the
+    // margin actually applied is not the configured one and nodes that differ on the other type disagree
+    let other = (c.k_other, c.step_other);
+    let tx_of = |cfg: &SignedEntityConfig, tp: &TimePoint| cfg.time_point_to_signed_entity(SignedEntityTypeDiscriminants::CardanoTransactions, tp).map_err(|e| e.to_string());
+    let blk_of = |cfg: &SignedEntityConfig, tp: &TimePoint| cfg.time_point_to_signed_entity(SignedEntityTypeDiscriminants::CardanoBlocksTransactions, tp).map_err(|e| e.to_string());
+    let mixed = catch(|| {
+        let mut bad = vec![];
+        for tp in [&tp1, &tp2] {
+            let (want_tx, want_blk) = (tx_of(&cfg, tp), blk_of(&cfg, tp));
+            for (name, alt) in [("other-values", Some(other)), ("absent", None)] {
+                let got_tx = tx_of(&config2(Some((c.k, c.step)), alt), tp);
+                if got_tx != want_tx {
+                    bad.push(format!("transactions beacon with the blocks type {name} {alt:?}: {got_tx:?}, alone {want_tx:?}"));
+                }
+                let got_blk = blk_of(&config2(alt, Some((c.k, c.step))), tp);
+                if got_blk != want_blk {
+                    bad.push(format!("blocks beacon with the transactions type {name} {alt:?}: {got_blk:?}, alone {want_blk:?}"));
+                }
+            }
+        }
+        bad
+    });
+    match mixed {
+        Err(p) => {
+            rep.violation("panic", format!("{c:?}: mixed configuration: {p}"));
+        }
+        Ok(bad) => {
+            if let Some(b) = bad.first() {
+                rep.violation("depends-on-other-type-config", format!("{c:?}: {b}"));
+            }
+            rep.label(if other == (c.k, c.step) { "mixed-config:same-values" } else if c.k_other < c.k { "mixed-config:other-margin-smaller" } else { "mixed-config:other-margin-larger-or-equal" });
+        }
     }
 
     // (e) purity / agreement between nodes
@@ -314,15 +361,15 @@ fn tip_strategy() -> impl Strategy<Value = u64> {
 }
 
 fn rand_strategy() -> impl Strategy<Value = RandCase> {
-    (tip_strategy(), prop_oneof![0u64..40, special()], special(), special(), prop_oneof![Just(0u64), Just(1u64), 0u64..1000, 0u64..(1u64 << 62)], 0u64..100_000)
-        .prop_flat_map(|(tip, delta, k, step, epoch, immutable)| {
+    (tip_strategy(), prop_oneof![0u64..40, special()], special(), special(), prop_oneof![Just(0u64), Just(1u64), 0u64..1000, 0u64..(1u64 << 62)], 0u64..100_000, special(), special())
+        .prop_flat_map(|(tip, delta, k, step, epoch, immutable, k_other, step_other)| {
             // concentrate tips right after k so that the interesting regimes are reached
             let near = prop_oneof![
                 2 => Just(tip),
                 2 => (0u64..200).prop_map(move |d| k.saturating_add(d)),
                 1 => (0u64..4).prop_map(move |d| k.saturating_add(step).saturating_add(d).saturating_sub(2)),
             ];
-            near.prop_map(move |tip| RandCase { tip, delta, k, step, epoch, immutable })
+            near.prop_map(move |tip| RandCase { tip, delta, k, step, epoch, immutable, k_other, step_other })
         })
 }
 
